@@ -17,7 +17,7 @@ RULE = (
     "the shifted and the real-temperature table of every DI target, at every row: H_hot = exact hot heat content below T on that scale, "
     "H_cold - exact cold content = one constant = Qc, spans = total duties, H_net = H_cold - H_hot >= 0 with a zero on the shifted table, "
     "both tables end in (Qh, Qc), and row bookkeeping dT_i = T_(i-1) - T_i, CP_i = exact CP sum of interval i, dH_i = CP_i dT_i = H_(i-1) - H_i "
-    "for hot, cold and net. part direct: the anchored entry get_process_heat_cascade called the way a library user would (Stream / StreamCollection objects built by the harness, all_streams left to its default, given, or given in the other order; shifted, then real with the known recovery): same table oracle, plus recovery read from the table = exact Qr; non-trivial (direct) = hot and cold streams with Qr > 0. non-trivial (service) = some stream has dt_cont > 0 and the shifted table holds at least one row that is not a stream "
+    "for hot, cold and net. part direct: the anchored entry get_process_heat_cascade called the way a library user would (Stream / StreamCollection objects built by the harness, all_streams left to its default, given, or given in the other order; shifted, then real with the known recovery): same table oracle, plus recovery read from the table = exact Qr, and the same oracle again after a generated set of further temperatures (two or more beyond an edge, some inside) is inserted into the finished tables in one call; non-trivial (direct) = hot and cold streams with Qr > 0. non-trivial (service) = some stream has dt_cont > 0 and the shifted table holds at least one row that is not a stream "
     "or utility temperature (projection / pocket closure); distinct by canonical JSON."
 )
 ASSUMPTIONS = [
@@ -202,6 +202,32 @@ def eval_direct(case) -> Outcome:
         n_extra = check_table(out, c, tbl, shifted, "direct call", "direct_" + tag, known)
         if n_extra:
             out.labels.add(f"inserted-rows-{tag}")
+    # extra temperatures put into the finished tables in one call (two or more beyond an edge, some inside): the row
+    # bookkeeping and the curves must still agree with the streams (the top row alone keeps its pinned width, so a
+    # single temperature above the range is not used here)
+    ins = case.get("insert") or []
+    if ins:
+        for shifted, tbl, tag in ((True, pt, "shifted"), (False, pt_real, "real")):
+            Tcol = [float(x) for x in tbl.col["T"]]
+            hi, lo = max(Tcol), min(Tcol)
+            temps = []
+            for kind, a in ins:
+                if kind == "above":
+                    temps += [hi + a, hi + 2 * a + 1.0]
+                elif kind == "below":
+                    temps += [lo - a, lo - 2 * a - 1.0]
+                else:
+                    temps.append(round(lo + (hi - lo) * a, 3))
+            ok, n_added = call_sut(tbl.insert_temperature_interval, temps)
+            if not ok:
+                out.fail("C05.sut_exception:" + n_added, f"insert_temperature_interval({temps}) raised {n_added}: {call_sut.last_message}")
+                continue
+            out.labels.add("rows-inserted-afterwards")
+            known = set()
+            for s in c.hot + c.cold:
+                known.add(s.lo(shifted))
+                known.add(s.hi(shifted))
+            check_table(out, c, tbl, shifted, f"direct call + insert {temps}", "direct_inserted_" + tag, known)
     out.nontrivial = bool(c.hot and c.cold) and c.Qr > 0
     return out
 
@@ -211,7 +237,8 @@ def direct_case(draw, tier):
     mx = 8 if tier == "quick" else 12
     shape = draw(st.sampled_from(["mixed", "mixed", "mixed", None]))
     ss = draw(G.streams(2 if shape else 1, mx, False, shape, 0.0, thirds=draw(st.integers(0, 4)) == 0))
-    return {"streams": ss, "all_streams": draw(st.sampled_from(["default", "default", "given", "given-reversed"]))}
+    ins = draw(st.lists(st.one_of(st.tuples(st.just("above"), st.sampled_from([5.0, 20.0])), st.tuples(st.just("below"), st.sampled_from([5.0, 30.0])), st.tuples(st.just("inside"), st.sampled_from([0.1, 0.37, 0.5, 0.9]))), min_size=0, max_size=3))
+    return {"streams": ss, "all_streams": draw(st.sampled_from(["default", "default", "given", "given-reversed"])), "insert": [list(x) for x in ins]}
 
 
 def strategy(tier):
@@ -229,4 +256,4 @@ PARTS = [
     Part("service", eval_case, {"quick": 1000, "thorough": 30000}, strategy=strategy, min_nontrivial={"quick": 200, "thorough": 5000}),
     Part("direct", eval_direct, {"quick": 1500, "thorough": 40000}, strategy=direct_case, min_nontrivial={"quick": 400, "thorough": 10000}),
 ]
-MIN_SHARE = {"service": {"unequal-contributions": 0.3, "inserted-rows-shifted": 0.2, "inserted-rows-real": 0.2}, "direct": {"all_streams-default": 0.25, "all_streams-given": 0.09, "unequal-contributions": 0.3}}
+MIN_SHARE = {"service": {"unequal-contributions": 0.3, "inserted-rows-shifted": 0.2, "inserted-rows-real": 0.2}, "direct": {"rows-inserted-afterwards": 0.3, "all_streams-default": 0.25, "all_streams-given": 0.09, "unequal-contributions": 0.3}}
